@@ -95,6 +95,11 @@ func (g *progGen) mark() *tw.Stmt {
 // condTable: one literal spelling per (type, truthiness).
 func condLiterals() []*tw.Expr {
 	return []*tw.Expr{
+		// values produced by built-ins (fresh objects, not the evaluator's own constants)
+		tw.Call(tw.Arr(intLit(1), intLit(2)), "contains", intLit(3)), tw.Call(tw.Arr(intLit(1), intLit(2)), "contains", intLit(2)),
+		tw.Call(tw.Str("abc"), "contains", tw.Str("z")), tw.Call(tw.Str("abc"), "contains", tw.Str("b")),
+		tw.Call(tw.Bool(false), "then", intLit(1)), tw.Call(tw.Bool(true), "then", tw.Str("")), tw.Call(tw.Bool(false), "then", intLit(1), intLit(0)),
+		tw.Call(tw.Str(""), "len"), tw.Call(tw.Arr(), "len"), tw.Call(intLit(0), "float"), tw.Call(floatLit(0.4), "int"),
 		tw.Bool(false), tw.Bool(true), tw.Nil(), intLit(0), intLit(1), intLit(-1), floatLit(0.0), floatLit(0.5),
 		tw.Str(""), tw.Str("0"), tw.Str("a"), tw.Arr(), tw.Arr(intLit(0)), tw.Obj(nil, nil), tw.Obj([]string{"a"}, []*tw.Expr{intLit(1)}),
 	}
